@@ -261,7 +261,7 @@ def raw_function(f):
     return inspect.unwrap(f)
 
 
-def instrument(func, shadows=None, loop_cuts=None, extra_globals=None, drop_calls=('print',)):
+def instrument(func, shadows=None, loop_cuts=None, extra_globals=None, drop_calls=('print',), share_globals=None):
     """func: a function object from the imported real module (plain, static, class or property)."""
     func = raw_function(func)
     src = textwrap.dedent(inspect.getsource(func))
@@ -275,8 +275,11 @@ def instrument(func, shadows=None, loop_cuts=None, extra_globals=None, drop_call
     _, lineno = inspect.getsourcelines(func)
     ast.increment_lineno(tree, lineno - 1)
     code = compile(tree, file, 'exec')
-    g = dict(func.__globals__)
-    g.update(B.SHADOWS)
+    if share_globals is not None:
+        g = share_globals.fn.__globals__        # same module-global namespace as another re-compiled function
+    else:
+        g = dict(func.__globals__)
+        g.update(B.SHADOWS)
     if shadows:
         g.update(shadows)
     if extra_globals:
